@@ -340,6 +340,12 @@ class Zone:
             if self.contradiction:
                 return
             changed = False
+            for x_, k_, some_, payload_ in self._csub:
+                # payload = x - k: a lower bound c on the payload separates k from x by c
+                if some_ and payload_ in self.idx and x_ in self.idx and k_ in self.idx:
+                    w_ = self.d[self.idx[z]][self.idx[payload_]]
+                    if w_ < 0 and self._add(k_, x_, w_):
+                        changed = True
             for a in self.atoms:
                 if a[0] == "ne":
                     x, y = a[1], a[2]
